@@ -115,3 +115,16 @@ CASES += [
     {"name": "axis moved by rebinding the array of points", "kind": "twin", "edits": [
         (_TM13, _SH13, "            self.data = self.data - self.start\n            self.start = 0.0\n", 1)]},
 ]
+
+_T9 = "quantarhei/core/time.py"
+CASES += [
+    {"name": "the start of the frequency axis is kept for complete time axes only (seeded change of round 9)", "kind": "mutant", "rule": "C13-H",
+     "edits": [(_T9, "        self.frequency_start = frequency_start\n",
+                "        if atype == \"complete\":\n            self.frequency_start = frequency_start\n        else:\n            self.frequency_start = 0.0\n", 1)]},
+    {"name": "the start of the frequency axis is kept only when it is not zero (nothing stored otherwise)", "kind": "mutant", "rule": "C13-H",
+     "edits": [(_T9, "        self.frequency_start = frequency_start\n",
+                "        if frequency_start:\n            self.frequency_start = frequency_start\n", 1)]},
+    {"name": "the start of the frequency axis is stored in both arms of a test", "kind": "twin",
+     "edits": [(_T9, "        self.frequency_start = frequency_start\n",
+                "        if atype == \"complete\":\n            self.frequency_start = frequency_start\n        else:\n            self.frequency_start = frequency_start\n", 1)]},
+]
